@@ -28,8 +28,10 @@ def make_vectorizable(func: callable, backend: str):
     module = _module_from_backend(backend)
     tree = _make_vectorizable_ast(func, module=module)
 
-    # recreate scope of function and add array library
-    scope = func.__globals__
+    # recreate scope of function and add array library. Work on a copy: executing the
+    # new definition in the globals of the function itself would replace the original
+    # function in its module by the vectorized one.
+    scope = dict(func.__globals__)
     scope[module] = import_module(module)
 
     # execute new ast
